@@ -192,6 +192,17 @@ def uninitialised_attrs(an: Analysis, ci: ClassInfo) -> list[tuple[FunctionInfo,
         for s in c.node.body:
             if isinstance(s, ast.AnnAssign) and isinstance(s.target, ast.Name):
                 assigned.add(s.target.id)
+    # a private base class that only its subclasses in the package instantiate (shared plumbing reading what every one of them
+    # sets): an attribute assigned along the MRO of *every* subclass is initialised whenever a method of the base runs
+    subs = [c for c in prog.classes.values() if c is not ci and any(b is ci for b in prog.mro(c)[1:])]
+    if subs and ci.name.startswith("_"):
+        common: set[str] | None = None
+        for sc_ in subs:
+            have: set[str] = set()
+            for c in prog.mro(sc_):
+                have |= set(c.class_assign) | set(c.attr_val) | set(c.methods)
+            common = have if common is None else (common & have)
+        assigned |= common or set()
     out = []
     for name, ms in ci.methods.items():
         for m in ms:
